@@ -1405,6 +1405,7 @@ Proof.
     destruct (s_tcb s); [discriminate|reflexivity].
   - apply OwnInv_k_deliver, H.
   - apply OwnInv_k_egress, H.
+  - eapply OwnInv_same; [| | | |exact H]; reflexivity.
 Qed.
 
 Lemma OA_orun es o :
